@@ -153,7 +153,7 @@ fn dispatch_family(st: &mut Stats, maxlen: usize) {
 
 pub fn run(mut cx: Ctx) -> ! {
     cx.rule = "every (pattern, text) pair of the bounded families is run through the real wildcard_match and compared with a DP glob matcher; states = distinct pairs, transitions = calls; non-trivial = pattern has both a `*` and a literal and the text is non-empty".into();
-    let (pl, tl) = (cx.pick(6, 7), cx.pick(8, 10));
+    let (pl, tl) = (cx.pick(7, 7), cx.pick(9, 11));
     cx.bound("pattern_len", pl);
     cx.bound("text_len", tl);
     let mut st = Stats::default();
